@@ -5,6 +5,7 @@
     initialized|finished->initialized (reset), any->closed, closed never left.
     Table: Gen/FsmConfig.v, REGENERATED from nextline/fsm/config.py on every run.
     Model: Life/Model.v; "for every history and schedule" = for every label list. *)
+From NL Require Import Life.Close Life.Protocol Life.Refusal.
 From NL Require Import Life.Model Life.LockInv Life.FsmInv Life.Hist Life.Single Life.FsmMoves Life.Table Life.StatePubs Gen.FsmConfig.
 
 (** the configured transition table is exactly the documented diagram *)
@@ -82,6 +83,108 @@ Theorem C01_refused_changes_nothing : forall s t c,
   /\ hooks_of (trace (refuse s t c)) = hooks_of (trace s).
 Proof. exact refuse_effect. Qed.
 
+(** ---- refusal stated on HISTORIES (Life/Refusal.v) ----
+    A request is judged when it gets the lifecycle lock: at its own [Step] when it had to
+    queue (pc [Granted1]), inside its [Call] label when the lock was free. *)
+
+(** a step that appends `EvRet t c MachineError`, in any reachable state: it is the request's
+    own label; it appends exactly that return (after the call record when judged inside [Call];
+    for a continuous request also the re-publication of the flag); the state did not allow the
+    request; and NOTHING else changes -- state, run task, run arguments, child, result, script
+    and numbering, every flag, the hook log -- except the lock hand-over, the task table entry
+    of the call and, for a continuous request, its own (never started) registration *)
+Theorem C01_refused_on_history : forall stmt start th md ls l t c,
+  let s := run_labels (init_state stmt start th md) ls in
+  let s' := step s l in
+  let r := EvRet t c RMachineError in
+  In r (appended s s') ->
+  ((l = Step t /\ holder s = Some t /\ find_task (tasks s) t = Some (c, Granted1) /\
+    (appended s s' = [r] \/ (is_cont c = true /\ exists b, appended s s' = [EvPub (PCont b); r])) /\
+    holder s' = rel_holder (lockq s) /\ lockq s' = tl (lockq s) /\
+    tasks s' = remove_task (rel_tasks (lockq s) (tasks s)) t)
+   \/
+   (l = Call t c /\ holder s = None /\ lockq s = [] /\ find_task (tasks s) t = None /\
+    ((is_cont c = false /\ appended s s' = [EvCall t c; r]) \/
+     (is_cont c = true /\ exists b, appended s s' = [EvCall t c; EvPub (PCont true); EvPub (PCont b); r])) /\
+    holder s' = None /\ lockq s' = [] /\ tasks s' = tasks s))
+  /\ disallowed c false (st_fsm s)
+  /\ (st_fsm s' = st_fsm s /\ runt s' = runt s /\ run_finished s' = run_finished s /\ alive s' = alive s /\
+      pending_exit s' = pending_exit s /\ run_arg s' = run_arg s /\ exited_proc s' = exited_proc s /\
+      started_ev s' = started_ev s /\
+      c_stmt s' = c_stmt s /\ c_next s' = c_next s /\ c_threads s' = c_threads s /\ c_modules s' = c_modules s /\
+      nl_started s' = nl_started s /\ nl_closed s' = nl_closed s /\ run_owner s' = run_owner s /\
+      run_cont s' = run_cont s /\ running_process s' = running_process s /\ send_command s' = send_command s /\
+      cont_closed s' = cont_closed s)
+  /\ cont_plugins s' = (if is_cont c then filter (unreg t) (cont_plugins s) else cont_plugins s)
+  /\ hooks_of (history s') = hooks_of (history s).
+Proof. exact Refusal.all_refused_on_history. Qed.
+
+(** WHEN: a run request (run, run_and_continue, run_continue_and_wait, run_session) that has
+    the lock ends in MachineError at its next step iff the state is not 'initialized' (so also
+    after close); otherwise it becomes the run in progress *)
+Theorem C01_error_iff_state_disallows : forall stmt start th md ls t c,
+  let s := run_labels (init_state stmt start th md) ls in
+  runlike c = true -> find_task (tasks s) t = Some (c, Granted1) ->
+  let s' := step s (Step t) in
+  holder s = Some t /\
+  (In (EvRet t c RMachineError) (appended s s') <-> st_fsm s <> Initialized) /\
+  (st_fsm s = Initialized ->
+   st_fsm s' = Running /\ runt s' = Some RT_New /\ run_finished s' = Some false /\ run_owner s' = t /\
+   find_task (tasks s') t = Some (c, R_WaitStarted) /\ trace s' = trace s).
+Proof. exact Refusal.all_run_error_iff. Qed.
+
+(** a reset that has the lock ends in MachineError iff the state is neither 'initialized' nor
+    'finished'; otherwise it proceeds (to its first gates) *)
+Theorem C01_reset_error_iff_state_disallows : forall stmt start th md ls t o,
+  let s := run_labels (init_state stmt start th md) ls in
+  find_task (tasks s) t = Some (CReset o, Granted1) ->
+  let s' := step s (Step t) in
+  holder s = Some t /\
+  (In (EvRet t (CReset o) RMachineError) (appended s s') <-> (st_fsm s <> Initialized /\ st_fsm s <> Finished)) /\
+  (st_fsm s = Initialized \/ st_fsm s = Finished ->
+   st_fsm s' = st_fsm s /\ runt s' = runt s /\
+   exists p, (p = Z_G1 \/ p = Z_G1b) /\ find_task (tasks s') t = Some (CReset o, p)).
+Proof. exact Refusal.all_reset_error_iff. Qed.
+
+(** the same when the lock is free and the request is judged inside its [Call] label
+    ([disallowed c false f] is `f <> Initialized` for a run request and
+    `f <> Initialized /\ f <> Finished` for a reset); with the lock busy it only queues *)
+Theorem C01_error_iff_state_disallows_call : forall stmt start th md ls t c,
+  let s := run_labels (init_state stmt start th md) ls in
+  find_task (tasks s) t = None -> (runlike c = true \/ exists o, c = CReset o) ->
+  (is_cont c = true -> cont_closed s = false) ->
+  let s' := step s (Call t c) in
+  (holder s = None -> lockq s = [] ->
+   (In (EvRet t c RMachineError) (appended s s') <-> disallowed c false (st_fsm s)) /\
+   (~ disallowed c false (st_fsm s) ->
+    match c with
+    | CReset o => st_fsm s' = st_fsm s /\ runt s' = runt s /\
+                  exists p, (p = Z_G1 \/ p = Z_G1b) /\ find_task (tasks s') t = Some (c, p)
+    | _ => st_fsm s' = Running /\ runt s' = Some RT_New /\ run_finished s' = Some false /\ run_owner s' = t /\
+           find_task (tasks s') t = Some (c, R_WaitStarted)
+    end)) /\
+  (holder s <> None \/ lockq s <> [] ->
+   find_task (tasks s') t = Some (c, WaitLock1) /\
+   forall t0 c0 r, ~ In (EvRet t0 c0 r) (appended s s')).
+Proof. exact Refusal.all_direct_error_iff. Qed.
+
+(** a refused request in the middle of a history (run_and_continue that queued behind run()
+    and gets its turn while the child is running), refused requests judged inside [Call], and
+    an accepted one (the run() of task 1, accepted inside its [Call] in state 'initialized') *)
+Example C01_example_refusal_nonvacuous :
+  let s := refusal_state in
+  st_fsm s = Running /\ runt s = Some RT_WaitChild /\ find_task (tasks s) 2%nat = Some (CRunCont, Granted1)
+  /\ appended s (step s (Step 2%nat)) = [EvPub (PCont false); EvRet 2%nat CRunCont RMachineError]
+  /\ (let s2 := step s (Step 2%nat) in
+      appended s2 (step s2 (Call 3%nat CRun)) = [EvCall 3%nat CRun; EvRet 3%nat CRun RMachineError]
+      /\ appended s2 (step s2 (Call 3%nat CRunCont))
+         = [EvCall 3%nat CRunCont; EvPub (PCont true); EvPub (PCont false); EvRet 3%nat CRunCont RMachineError])
+  /\ (let s0 := run_labels (init_state 7 1 false false) (firstn 4 refusal_labels) in
+      st_fsm s0 = Initialized /\
+      find_task (tasks (step s0 (Call 1%nat CRun))) 1%nat = Some (CRun, R_WaitStarted) /\
+      st_fsm (step s0 (Call 1%nat CRun)) = Running).
+Proof. vm_compute. repeat split; reflexivity. Qed.
+
 (** non-vacuity: a history through every state, with refused requests on the way *)
 Example C01_example_nonvacuous :
   let ls := [Call 1 CRun; Call 1 CStart; Step 1; Step 1; Step 1; Call 2 (CReset (mkOpts None None None None)); Step 2; Step 2; Step 2;
@@ -102,3 +205,8 @@ Print Assumptions C01_subscription.
 Print Assumptions C01_invalid_run_refused.
 Print Assumptions C01_invalid_reset_refused.
 Print Assumptions C01_refused_changes_nothing.
+Print Assumptions C01_refused_on_history.
+Print Assumptions C01_error_iff_state_disallows.
+Print Assumptions C01_reset_error_iff_state_disallows.
+Print Assumptions C01_error_iff_state_disallows_call.
+Print Assumptions C01_example_refusal_nonvacuous.
